@@ -11,7 +11,7 @@ def engine_hash():
     h = hashlib.sha256()
     for p in sorted(glob.glob(os.path.join(VERIF, "sa", "**", "*.py"), recursive=True)) + \
             sorted(glob.glob(os.path.join(VERIF, "sa", "tables", "*.json"))) + \
-            sorted(glob.glob(os.path.join(VERIF, "mutants", "*.json"))):
+            sorted(glob.glob(os.path.join(VERIF, "mutants", "*.json"))) + sorted(glob.glob(os.path.join(VERIF, "harmless", "*.json"))):
         h.update(open(p, "rb").read())
     return h.hexdigest()[:12]
 
@@ -33,10 +33,16 @@ def evaluate(prop, facts, tier):
 
 
 def load_mutants(prop):
-    p = os.path.join(VERIF, "mutants", prop + ".json")
-    if not os.path.exists(p):
-        return []
-    return json.load(open(p))
+    out = []
+    for sub in ("mutants", "harmless"):
+        p = os.path.join(VERIF, sub, prop + ".json")
+        if os.path.exists(p):
+            ms = json.load(open(p))
+            if sub == "harmless":
+                for m in ms:
+                    m["expect_clean"] = True
+            out += ms
+    return out
 
 
 def run_mutant(args):
@@ -64,9 +70,13 @@ def run_mutant(args):
         ctx = evaluate(prop, facts, "quick")
         new = [v["key"] for v in ctx.violations() if v["key"] not in base_keys]
         res["reported"] = new[:8]
-        exp = m.get("expect", "")
-        hit = [k for k in new if exp in k]
-        res["status"] = "reported" if hit else "MISSED"
+        if m.get("expect_clean"):
+            # a behaviour-preserving variant: any new violation is a false alarm of the checker
+            res["status"] = "clean" if not new else "FALSE-ALARM"
+        else:
+            exp = m.get("expect", "")
+            hit = [k for k in new if exp in k]
+            res["status"] = "reported" if hit else "MISSED"
     finally:
         build.cleanup(sc)
     json.dump(res, open(cp, "w"))
@@ -77,7 +87,7 @@ def selftest(prop, base_fdir, base_ctx, tier):
     muts = load_mutants(prop)
     if tier == "quick":
         can = [m for m in muts if m.get("canary")]
-        muts = can[:1] or muts[:1]
+        muts = can[:1] or [m for m in muts if not m.get("expect_clean")][:1]
     base_keys = {v["key"] for v in base_ctx.violations()}
     jobs = [(prop, m, base_fdir, base_keys, tier) for m in muts]
     results = []
@@ -152,8 +162,9 @@ def check(prop, tier, seed):
     mod = load_rules(prop)
     # --- self tests (mutants must be reported)
     st = selftest(prop, lib_fdir, ctx, tier)
-    missed = [s for s in st if s["status"] == "MISSED"]
-    selftest_ev = {"mutants_run": len(st), "reported": len([s for s in st if s["status"] == "reported"]),
+    missed = [s for s in st if s["status"] in ("MISSED", "FALSE-ALARM")]
+    selftest_ev = {"mutants_run": len([s for s in st if s["status"] in ("reported", "MISSED")]), "reported": len([s for s in st if s["status"] == "reported"]),
+                   "harmless_variants_run": len([s for s in st if s["status"] in ("clean", "FALSE-ALARM")]), "harmless_variants_silent": len([s for s in st if s["status"] == "clean"]),
                    "skipped": [s for s in st if s["status"] in ("not-applicable", "does-not-compile")],
                    "results": [{"id": s["id"], "status": s["status"], "reported": s.get("reported", [])[:2]} for s in st]}
     extra = {}
@@ -190,7 +201,7 @@ def check(prop, tier, seed):
             print("VIOLATION property=%s replay=%s" % (prop, p))
         return 1
     if missed:
-        print("SELFTEST-FAILED: mutants applied but not reported: %s" % [m["id"] for m in missed])
+        print("SELFTEST-FAILED: mutants not reported / harmless variants reported: %s" % [(m["id"], m["status"]) for m in missed])
         return 2
     return 0
 
